@@ -106,6 +106,8 @@ def clauses(case, d):
                     bad.append("stopped-before-limit")
         if stop is not None and n >= 2 and seq[n - 1] >= stop:
             bad.append("ran-past-limit")      # an earlier cycle end already reached start+L
+    if d["raised"].startswith("other:") or d["raised"] == "kbint":
+        bad.append("unexpected-exception-from-do:" + d["raised"].split(":")[-1])
     # done flags
     want = expected_flags(case, d)
     spec = S.spec_index(case)[0]
